@@ -20,12 +20,12 @@ def FFFD : Char := '�'
 def isHex (c : Char) : Bool :=
   ('0' ≤ c && c ≤ '9') || ('a' ≤ c && c ≤ 'f') || ('A' ≤ c && c ≤ 'F')
 
-def hexVal (c : Char) : Nat :=
+def digitVal (c : Char) : Nat :=
   if '0' ≤ c && c ≤ '9' then c.toNat - 48
   else if 'a' ≤ c && c ≤ 'f' then c.toNat - 87
   else c.toNat - 55
 
-def hexNum (cs : List Char) : Nat := cs.foldl (fun a c => a * 16 + hexVal c) 0
+def hexNum (cs : List Char) : Nat := cs.foldl (fun a c => a * 16 + digitVal c) 0
 
 /-- the scalar value with code `n`, U+FFFD when `n` is not a scalar value -/
 def scalarOr (n : Nat) : Char :=
